@@ -3,7 +3,7 @@
    table, and the laws of deep equality (value.Equals).
    All statements are about the executable model Sem.v. *)
 From Coq Require Import ZArith NArith List String Bool Floats FMapPositive Permutation Lia.
-From EvyV Require Import Base Num Ast Omap Sem.
+From EvyV Require Import Base Num Ast Omap Sem SemPure.
 Import ListNotations.
 Open Scope Z_scope.
 
@@ -1329,6 +1329,12 @@ Section Resp.
     | eapply I_trans; [apply (I_emit EvRead)|]; eapply I_trans; [apply (I_input t)|] ];
     revert H; match goal with |- ?m ?s0 = _ -> _ => assert (R : resp m) by rsp2; apply R end.
 
+  (* a computation that factors through the heap (SemPure: every pure built-in) *)
+  Lemma resp_heap_only {A} (m : M A) : heap_only m -> resp m.
+  Proof.
+    intros HO s r s' H. destruct (heap_only_run m s r s' HO H) as (E & _ & _). rewrite E. apply I_heap.
+  Qed.
+
   Lemma resp_builtin name e args m : builtin name e args = Some m -> resp m.
   Proof.
     unfold builtin. intro H.
@@ -1336,7 +1342,7 @@ Section Resp.
            | (if ?c then _ else _) = _ =>
                destruct c; [inversion H; subst; clear H; first [solve [rsp2] | solve [rsp_raw_read]] |]
            end.
-    discriminate H.
+    eapply resp_heap_only, pure_builtin_spec; exact H.
   Qed.
 
   Ltac rsp_lib3 :=
